@@ -20,6 +20,9 @@ struct ModelDevice
     std::map<uint32_t, Snap> ifaces;
 };
 
+static std::set<uint16_t> g_probeDevs;
+static std::set<uint32_t> g_probeIfs;
+
 static Verdict compare(const lib::Status& st, const std::map<uint16_t, ModelDevice>& model, size_t opIndex)
 {
     std::ostringstream w;
@@ -32,8 +35,7 @@ static Verdict compare(const lib::Status& st, const std::map<uint16_t, ModelDevi
         VF_CHECK(seenDev.insert(id).second, w.str() << ": device id " << id << " has two entries");
         VF_CHECK(model.count(id), w.str() << ": entry for device " << id << " which has no capture-module status since it was last removed");
     }
-    static const uint16_t probeDevs[] = {0, 1, 2, 3, 65535, 4};
-    for (uint16_t d : probeDevs)
+    for (uint16_t d : g_probeDevs)
     {
         size_t idx = st.getIndexByDeviceId(d);
         if (!model.count(d))
@@ -54,8 +56,7 @@ static Verdict compare(const lib::Status& st, const std::map<uint16_t, ModelDevi
             VF_CHECK(seenIf.insert(iid).second, w.str() << ": device " << d << " interface " << iid << " has two entries");
             VF_CHECK(md.ifaces.count(iid), w.str() << ": device " << d << " has an entry for interface " << iid << " which was not seen since the last removal");
         }
-        static const uint32_t probeIfs[] = {0, 1, 2, 0xFFFFFFFFu, 9};
-        for (uint32_t i : probeIfs)
+        for (uint32_t i : g_probeIfs)
         {
             size_t j = ds.getIndexByInterfaceId(i);
             if (!md.ifaces.count(i))
@@ -77,6 +78,14 @@ static Verdict runCase(const Case& c, Info& info)
     lib::Status st;
     std::map<uint16_t, ModelDevice> model;
     bool removed = false, updateAfterRemoval = false;
+    // lookups are probed for every id the case uses plus two ids it never uses
+    g_probeDevs = {4, 0x7777};
+    g_probeIfs = {9, 0x77777777u};
+    for (const auto& op : c.ops)
+    {
+        g_probeDevs.insert(op.dev);
+        g_probeIfs.insert(op.iface);
+    }
     for (size_t i = 0; i < c.ops.size(); ++i)
     {
         const Op& op = c.ops[i];
@@ -135,12 +144,24 @@ static rc::Gen<Case> genCase(int tier)
     return rc::gen::exec([tier]() {
         Case c;
         int n = *range<int>(1, tier ? 120 : 60);
+        // id pools: the plain ones, or a base id plus ids arithmetically related to it (same value modulo small powers of two,
+        // one byte / one bit changed) - what a bucket, filter, hash or sorted structure inside the tracker could confuse
+        std::vector<uint16_t> devs = {0, 1, 2, 3, 65535};
+        std::vector<uint32_t> ifs = {0, 1, 2, 0xFFFFFFFFu};
+        if (*range<int>(0, 1) == 0)
+        {
+            uint16_t d = *rc::gen::element<uint16_t>(0, 1, 5, 37, 63, 255, 0x1234);
+            devs = {d, static_cast<uint16_t>(d + 64), static_cast<uint16_t>(d + 256), static_cast<uint16_t>(d ^ 0x8000), static_cast<uint16_t>(d + 1),
+                    static_cast<uint16_t>(d + 128), static_cast<uint16_t>(d + 32)};
+            uint32_t i0 = *rc::gen::element<uint32_t>(0, 1, 7, 63, 0x10);
+            ifs = {i0, i0 + 64, i0 + 256, i0 + 65536, i0 ^ 0x80000000u, i0 + 1, i0 + 32};
+        }
         for (int i = 0; i < n; ++i)
         {
             Op op;
             op.kind = *rc::gen::weightedElement<uint8_t>({{5, 0}, {8, 1}, {2, 2}, {3, 3}, {3, 4}, {1, 5}, {3, 6}});
-            op.dev = *rc::gen::element<uint16_t>(0, 1, 2, 3, 65535);
-            op.iface = *rc::gen::element<uint32_t>(0, 1, 2, 0xFFFFFFFFu);
+            op.dev = devs[*range<size_t>(0, devs.size() - 1)];
+            op.iface = ifs[*range<size_t>(0, ifs.size() - 1)];
             op.viaDecoder = *range<uint8_t>(0, 1);
             c.ops.push_back(op);
         }
@@ -153,14 +174,23 @@ static void enumerate(int tier, const std::function<bool(const Case&)>& emit)
     const std::vector<Op> alphabet = {{0, 0, 0, 0}, {0, 1, 0, 1}, {1, 0, 0, 1}, {1, 0, 1, 0}, {1, 1, 0, 0}, {2, 0, 0, 0},
                                       {3, 0, 0, 0}, {3, 1, 0, 0}, {4, 0, 0, 0}, {4, 0, 1, 0}, {5, 0, 0, 0}, {1, 2, 0, 0}, {6, 0, 0, 0}};
     int maxLen = tier ? 5 : 4;
-    for (int len = 1; len <= maxLen; ++len)
+    // the alphabet is enumerated with the plain ids (0, 1, 2 / 0, 1) and with ids that coincide modulo 64 and modulo 256
+    static const uint16_t devMap[3][3] = {{0, 1, 2}, {5, 69, 261}, {1, 0x0101, 0x8001}};
+    static const uint32_t ifMap[3][2] = {{0, 1}, {1, 65}, {7, 7 + 65536}};
+    for (int mapping = 0; mapping < 3; ++mapping)
+    for (int len = 1; len <= (mapping == 0 ? maxLen : maxLen - 1); ++len)
     {
         std::vector<size_t> idx(static_cast<size_t>(len), 0);
         while (true)
         {
             Case c;
             for (size_t k : idx)
-                c.ops.push_back(alphabet[k]);
+            {
+                Op op = alphabet[k];
+                op.dev = devMap[mapping][op.dev % 3];
+                op.iface = ifMap[mapping][op.iface % 2];
+                c.ops.push_back(op);
+            }
             if (!emit(c))
                 return;
             int k = len - 1;
